@@ -162,9 +162,14 @@ class ServerProp(Prop):
         return out
 
     def nontrivial(self, line, impl):
+        if line.startswith("timing "):
+            return True
         return impl.startswith("r1=") and not impl.startswith("r1=- none ; conv=- ")
 
     def classify(self, line, impl, res):
+        if line.startswith("timing "):
+            res.count("timing:" + impl[:40])
+            return
         o = parse_req_obs(impl)
         if o:
             res.count("r1:" + " ".join(o[0].split(" ")[:3])[:24])
@@ -390,9 +395,34 @@ class C09(ServerProp):
             opts = rand_optlist(rng, hostile=rng.random() < 0.15)
             name = b"f" if kind == "rrq" else rng.choice([b"up", b"f"])
             lines.append("req %s %s %s %s" % (self.root(i), flags, fs, rq(kind, name, opts).hex()))
+        # real time: the retransmission interval is the acknowledged timeout (one run per port mode, in parallel)
+        tv = [1] if tier == "quick" else [1, 2]
+        j = 0
+        for flags in ["-", "s"]:
+            for t in tv:
+                lines.append("timing %s %s srv/f=gen:20:1 %s" % (self.root(j), flags, rq("rrq", b"f", (("timeout", t), ("blksize", 8))).hex()))
+                j += 1
         return lines
 
+    def timing_oracle(self, line, impl):
+        c = Case(line)
+        kind, name, opts = parse_rq(c.dgram)
+        t = dict(recognised(opts)).get("timeout", 5)
+        kv = dict(x.split("=") for x in impl.split(" ")) if "=" in impl else {}
+        if kv.get("first") != "oack":
+            return ("request with a valid timeout option not acknowledged", "timing-no-oack")
+        if kv.get("interval") != str(t):
+            return ("retransmission after %s s although timeout %d was acknowledged" % (kv.get("interval"), t), "retransmission-interval")
+        n = int(kv.get("transmissions", "0"))
+        if n < 2 or n > 6:
+            return ("DATA 1 transmitted %d times to a silent peer (retry budget 6)" % n, "retransmission-count")
+        return None
+
     def oracle(self, line, impl):
+        if line.startswith("timing "):
+            if impl in ("abort", "panic"):
+                return ("server died", "died")
+            return self.timing_oracle(line, impl)
         if impl in ("abort", "panic") or not impl.startswith("r1="):
             return ("server died or no observation: " + impl[:60], "died")
         c = Case(line)
